@@ -18,7 +18,7 @@
 From Coq Require Import Permutation Sorting.Sorted.
 From BR Require Import Base.Prelude Model.LRU Model.Names Model.Load Proofs.LRU_inv
   Proofs.Names_strings Proofs.Names_roundtrip Proofs.Load_add Proofs.Load_loop Proofs.Load_scan
-  Proofs.Load_main Bridge.Bridge_Names.
+  Proofs.Load_main Bridge.Bridge_LRU Bridge.Bridge_Names.
 Open Scope Z_scope.
 Open Scope list_scope.
 
